@@ -244,6 +244,41 @@ pub fn run(c: &Case, rep: &mut Report) {
                 rep.violation(c, "C16/mutable/instruction-or-sequence-count", &format!("{}: {} instructions / {} sequences reported, expected {} / {}", site, n_instr, n_seq, e.groups.len(), e.seqs), &[]);
             }
         }
+        // ---------- a writing visitor: every type id handed out was replaced by a marker; the immutable traversal
+        // afterwards must report the marker exactly where it reported a type before
+        if let Some(v) = end.str(&format!("rewrite.{}", idx)) {
+            let n: Vec<u64> = v.split(' ').filter_map(|x| x.parse().ok()).collect();
+            if n.len() == 5 {
+                let (before_total, before_marked, handed, after_total, after_marked) = (n[0], n[1], n[2], n[3], n[4]);
+                rep.count("type-ids-rewritten-through-the-mutable-traversal", handed);
+                if before_marked != 0 || handed != before_total || after_total != before_total || after_marked != before_total {
+                    rep.violation(c, "C16/mutable/write-through-the-visitor-lost-or-miscounted", &format!("{}: immutable traversal reported {} type ids, the mutable one handed out {}; after replacing every one by a marker type the immutable traversal reports {} type ids, {} of them the marker", site, before_total, handed, after_total, after_marked), &[]);
+                }
+            }
+        }
+        // ---------- `unreachable` put in front of every sequence: everything behind it is still visited
+        if let (Some(v), Some(nseq)) = (end.str(&format!("imm_all_term.{}", idx)), end.num(&format!("term.seqs.{}", idx))) {
+            for (which, v) in [("immutable", Some(v)), ("mutable", end.str(&format!("mut_all_term.{}", idx)))] {
+                let v = match v {
+                    Some(v) => v,
+                    None => continue,
+                };
+                let toks: Vec<&str> = v.split(' ').filter(|t| !t.is_empty()).collect();
+                let n_instr = toks.iter().filter(|t| **t == "I").count();
+                let n_seq = toks.iter().filter(|t| **t == "S").count();
+                let got = multiset(toks.iter().filter_map(|t| match *t {
+                    "I" | "S" | "E" => None,
+                    t if t.starts_with('y') => Some(format!("Y{}", &t[1..])),
+                    t => Some(t.to_string()),
+                }));
+                rep.count("traversals-with-code-behind-a-terminator", 1);
+                if nseq as usize != e.seqs || n_seq != e.seqs || n_instr != e.groups.len() + e.seqs {
+                    rep.violation(c, &format!("C16/{}/code-behind-a-terminator-not-visited", which), &format!("{}: `unreachable` was put in front of each of the {} sequences: {} sequences and {} instructions reported, expected {} and {}", site, e.seqs, n_seq, n_instr, e.seqs, e.groups.len() + e.seqs), &[]);
+                } else if let Some((k, g, w)) = diff_multisets(&got, &all_operands()) {
+                    rep.violation(c, &format!("C16/{}/code-behind-a-terminator-operands", which), &format!("{}: operand {} reported {} times, the function has it {} times", site, k, g, w), &[]);
+                }
+            }
+        }
         // ---------- call-stack span
         for label in ["imm_all", "imm_ids", "mut_all", "mut_ids"] {
             if let Some(s) = end.num(&format!("span.{}.{}", label, idx)) {
